@@ -11,7 +11,7 @@ func properties() []*propDef {
 		},
 		{
 			ID: "C02", Title: "Path navigation returns exactly the elements of the resource's FHIR JSON tree",
-			Rules: []ruleFn{ruleNAV4, ruleNAV6, ruleORD5},
+			Rules: []ruleFn{ruleNAV1, ruleNAV2, ruleNAV4, ruleNAV6, ruleORD5},
 			Explanation: "Structural necessary conditions of navigation, decided against the R4 schema as present in the generated google/fhir Go types.",
 			NotDecided: []string{"equality of navigation results with the JSON tree (run-time values)", "document order", "date/time rendering"},
 			Assumptions: []string{"generated Go struct tags carry the proto and JSON field names"},
